@@ -172,6 +172,7 @@ def c20(tier, seed):
         jobs.append(Job("inifile-%d" % i, H, ["inifile", i, 4], wraps=W, weight=3))
     jobs.append(Job("inilong", H, ["inilong"], wraps=W, weight=1))
     jobs.append(Job("inimulti", H, ["inimulti", 3 + X], wraps=W, weight=2))
+    jobs.append(Job("iniref", H, ["iniref", 5 + X], wraps=W, weight=3))   # 8 reference-related line kinds, one line more than the full enumeration
     jobs.append(Job("acobject", H, ["acobject"], wraps=W, weight=1))
     jobs.append(Job("o0-acobject", H, ["acobject"], wraps=W, flavour="o0", weight=1))
     for p in range(3):
@@ -180,7 +181,7 @@ def c20(tier, seed):
         jobs.append(Job("acquote-%d" % i, H, ["acquote", 3, i, 4], wraps=W, weight=4))
     for f, sh in ((0, 1), (1, 12), (2, 14), (3, 10)):
         for i in range(sh):
-            jobs.append(Job("acstruct-f%d-%02d" % (f, i), H, ["acstruct", f, 2, 2 + X, i, sh], wraps=W, weight=12))
+            jobs.append(Job("acstruct-f%d-%02d" % (f, i), H, ["acstruct", f, 2, 2 + (X if f != 2 else 0), i, sh], wraps=W, weight=12))   # flag set 2 carries the unregistered-section kind: depth 3 of it is > 10^8 documents
     # unoptimised, uninstrumented build (uninitialised-stack oracle) for the rejecting / nesting paths
     for f in (0, 1):
         jobs.append(Job("o0-acstruct-f%d" % f, H, ["acstruct", f, 2, 2, 0, 1 if f == 0 else 6], wraps=W, flavour="o0", weight=6))
